@@ -63,7 +63,11 @@ type sched struct {
 	lost     []string // announced wake-ups that did not arrive within the grace period
 	choices  []string // names chosen, in order (the replayable schedule)
 	problems []string
-	free     bool // released: yields no longer stop (used to let the goroutines of an abandoned execution finish)
+	// unlockedExit: a gate.exit has been seen to run WITHOUT the gate's mutex (TryLock succeeded inside it). Only then
+	// is the instant between a waiter's capacity test and its cond.Wait — inside the waiter's critical section — a
+	// point at which another thread's exit can happen, and only then does the controller stop a waiter there.
+	unlockedExit bool
+	free         bool // released: yields no longer stop (used to let the goroutines of an abandoned execution finish)
 }
 
 func newSched(capacity int) *sched {
@@ -380,13 +384,21 @@ func (s *sched) point(r *run, ev runner.VerifEvent) {
 	case "gate.block":
 		s.mu.Lock()
 		t := s.me()
+		s.log(t, "block:gate")
+		park := s.unlockedExit && !s.free
+		s.mu.Unlock()
+		if park {
+			// the waiter has found the gate full and is about to Wait, still holding the gate's mutex — which this
+			// code's exit does not take: let the controller run an exit here
+			s.yield("blockcs", "")
+		}
+		s.mu.Lock()
 		if t.state == stRunning {
 			s.running--
 		}
 		t.state = stBlocked
 		t.at = "enter"
 		s.gateQ = append(s.gateQ, t)
-		s.log(t, "block:gate")
 		s.notify()
 		s.mu.Unlock()
 	case "gate.woke":
@@ -406,6 +418,13 @@ func (s *sched) point(r *run, ev runner.VerifEvent) {
 		s.mu.Unlock()
 		r.sawCapacity(ev.Capacity)
 	case "gate.exited":
+		if tl, ok := ev.Locker.(interface{ TryLock() bool }); ok && tl.TryLock() {
+			// the caller of exit does not hold the gate's mutex
+			ev.Locker.Unlock()
+			s.mu.Lock()
+			s.unlockedExit = true
+			s.mu.Unlock()
+		}
 		s.mu.Lock()
 		s.log(s.me(), "exit:"+strconv.Itoa(ev.Capacity))
 		s.capacity = ev.Capacity
@@ -453,7 +472,7 @@ func (s *sched) enabled(t *thread) bool {
 // object touched by the pending operation of a yielded thread and whether it writes it ("" = local)
 func pendingObject(t *thread) (string, bool) {
 	switch t.at {
-	case "enter", "exit", "rewake":
+	case "enter", "exit", "rewake", "blockcs":
 		return "gate", true
 	case "start":
 		return "status:" + t.arg, true
@@ -581,6 +600,21 @@ func (s *sched) drive(watchdog time.Duration) verdict {
 		}
 		confirmed = false
 		sort.Slice(ready, func(i, j int) bool { return ready[i].name < ready[j].name })
+		parked := false
+		for _, t := range ready {
+			if t.at == "blockcs" {
+				parked = true
+			}
+		}
+		if parked {
+			var ok []*thread
+			for _, t := range ready {
+				if t.at != "enter" && t.at != "rewake" {
+					ok = append(ok, t)
+				}
+			}
+			ready = ok
+		}
 		t := s.pick(s, ready)
 		if t == nil {
 			s.mu.Unlock()
